@@ -1123,6 +1123,15 @@ def _run_field(case):
 
     U = field("U", min(1, nPe - 1))
     W = field("W", 0)
+
+    def vfield(name, node, dof):
+        # a vector-valued Field (dof_n = dim): the shape function in the active component, zero in the others, a (1, nPg, dim) array
+        f = Field(g, dim, mt)
+        f._Set_current_active_node(node)
+        f._Set_current_active_dof(dof)
+        val = np.zeros((1, nPg, dim))
+        val[0, :, dof] = N_pg[:, 0, node]
+        return Opd(name, "U", f, MV("fe", val), isfield=True)
     # the finite element array a Field evaluates to belongs to the caller: an in-place edit of it (w *= rho inside an integrand) must
     # not reach any later use of the same Field (every term below is evaluated after this edit)
     for F_ in (U, W):
@@ -1157,6 +1166,13 @@ def _run_field(case):
     if depth == 1:
         for t in first:
             evaluate(t, tally)
+        if dim >= 2:
+            # the vector-valued Field against every constant and field operand whose trailing sizes are dim (a full, non-symmetric matrix on
+            # either side of it, vectors, scalars)
+            V = vfield("V", min(1, nPe - 1), dim - 1)
+            L["V"] = V
+            for t in field_terms(V, ["P0", "P1d", "P2d", "F0", "F1d", "F2d", "N0", "S", "Si", "V"]):
+                evaluate(t, tally)
         return _finish(tally)
     states = {}
     for t, res, mv in _first_layer(first):
